@@ -6,6 +6,8 @@ turning a finding into a build break, so the harness is told about them through 
 file and reports them as violations of class ill_formed/... (or instantiate/...) at run time.
 """
 import concurrent.futures as cf
+import hashlib
+import json
 import os
 import subprocess
 import tempfile
@@ -38,23 +40,82 @@ FEATURES = {
     'mixed_sign_cmp': ('cnl::wide_integer<200,int>{5} < cnl::wide_integer<200,unsigned>{7u}', 'auto r = w < u;'),
     'or_xor_builtin': ('cnl::wide_integer<200>{5} | 3, cnl::wide_integer<200>{5} ^ 3', 'auto r = w | 3; auto s = w ^ 3; auto t = w | 7u;'),
     'or_wide100': ('cnl::wide_integer<200>{5} | cnl::wide_integer<100>{9}', 'auto r = w | w100;'),
-    'mixed_narrowest_arith': ('cnl::wide_integer<200,int>{5} + cnl::wide_integer<200,signed char>{3}', 'auto r = w + w8;'),
-    'int8_limbs_mod_unsigned': ('cnl::wide_integer<200,signed char>{3} % 3u', 'auto r = w8 % 3u;'),
-    'int8_limbs_minus_wide100': ('cnl::wide_integer<200,signed char>{3} - cnl::wide_integer<100>{9}', 'auto r = w8 - w100;'),
-    'int64_limbs_lt_int': ('cnl::wide_integer<200,long>{4} < 3', 'auto r = w64 < 3;'),
+    'mixed_narrowest/wide_plus_wide': ('cnl::wide_integer<200,int>{5} + cnl::wide_integer<200,signed char>{3}', 'auto r = w + w8;'),
+    'mixed_narrowest/int8_limbs_mod_unsigned_int': ('cnl::wide_integer<200,signed char>{3} % 3u', 'auto r = w8 % 3u;'),
+    'mixed_narrowest/int8_limbs_minus_wide100': ('cnl::wide_integer<200,signed char>{3} - cnl::wide_integer<100>{9}', 'auto r = w8 - w100;'),
+    'mixed_narrowest/int64_limbs_lt_int': ('cnl::wide_integer<200,long>{4} < 3', 'auto r = w64 < 3;'),
 }
 
 NARROWEST = {(8, 1): 'std::int8_t', (8, 0): 'std::uint8_t', (16, 1): 'std::int16_t', (16, 0): 'std::uint16_t',
              (32, 1): 'std::int32_t', (32, 0): 'std::uint32_t', (64, 1): 'std::int64_t', (64, 0): 'std::uint64_t'}
 
 
+_CACHE = None
+_CACHE_PATH = os.path.join(os.path.dirname(os.path.abspath(__file__)), '..', 'build', 'c10_probe_cache.json')
+
+
+def _tree_signature():
+    """content hash of every header of the tree under test: a cached probe result is reused only for identical sources"""
+    h = hashlib.sha1()
+    root = os.path.join(REPO, 'include')
+    for d, dirs, files in sorted(os.walk(root)):
+        dirs.sort()
+        for f in sorted(files):
+            fp = os.path.join(d, f)
+            h.update(fp.encode())
+            with open(fp, 'rb') as fh:
+                h.update(fh.read())
+    for tool in ('g++', 'clang++'):
+        try:
+            h.update(subprocess.run([tool, '--version'], stdout=subprocess.PIPE).stdout)
+        except Exception:
+            pass
+    return h.hexdigest()
+
+
+def _cache_load():
+    global _CACHE
+    if _CACHE is None:
+        sig = _tree_signature()
+        _CACHE = dict(sig=sig, res={})
+        try:
+            with open(_CACHE_PATH) as fh:
+                c = json.load(fh)
+            if c.get('sig') == sig:
+                _CACHE = c
+        except Exception:
+            pass
+    return _CACHE
+
+
+def _cache_save():
+    try:
+        os.makedirs(os.path.dirname(_CACHE_PATH), exist_ok=True)
+        with open(_CACHE_PATH + '.tmp', 'w') as fh:
+            json.dump(_CACHE, fh)
+        os.replace(_CACHE_PATH + '.tmp', _CACHE_PATH)
+    except Exception:
+        pass
+
+
 def _try_compile(job):
-    comp, text = job
+    comp, std, text = job
+    key = hashlib.sha1((comp + '|' + std + '|' + text).encode()).hexdigest()
+    cache = _cache_load()
+    if key in cache['res']:
+        return cache['res'][key]
+    r = _try_compile_uncached(job)
+    cache['res'][key] = r
+    return r
+
+
+def _try_compile_uncached(job):
+    comp, std, text = job
     with tempfile.NamedTemporaryFile('w', suffix='.cpp', delete=False) as fh:
         fh.write(text)
         path = fh.name
     try:
-        p = subprocess.run([comp, '-std=gnu++20', '-fsyntax-only', '-w', '-DNDEBUG', '-DJOHNMCFARLANE_CNL_VERIF',
+        p = subprocess.run([comp, '-std=' + std, '-fsyntax-only', '-w', '-DNDEBUG', '-DJOHNMCFARLANE_CNL_VERIF',
                             '-I' + os.path.join(REPO, 'include'), path], stdout=subprocess.DEVNULL, stderr=subprocess.DEVNULL)
         return p.returncode == 0
     finally:
@@ -68,18 +129,18 @@ def _type_stmt(d, s, l):
     return TYPE_SNIPPET % ((d, NARROWEST[(l, s)]) + (d, s, l) * 4)
 
 
-def probe(digits, comp):
+def probe(digits, comp, std='gnu++20', features=True):
     head = '#include <cnl/wide_integer.h>\n#include <cstdint>\n'
     jobs = {}
-    for name, (_, stmt) in FEATURES.items():
+    for name, (_, stmt) in (FEATURES.items() if features else ()):
         jobs[('f', name)] = PRELUDE + 'int main(){ %s return 0; }\n' % stmt
     # all eight Narrowest of one Digits in one TU; only a failing group is probed type by type
     for d in digits:
         jobs[('g', d)] = head + 'int main(){ %s return 0; }\n' % ' '.join(_type_stmt(d, s, l) for (l, s) in NARROWEST)
     # sanity: the probe mechanism itself must work, otherwise everything would look ill-formed
-    jobs[('sanity',)] = PRELUDE + 'int main(){ auto r = w + w; return 0; }\n'
+    jobs[('sanity',)] = head + 'cnl::wide_integer<200, int> w{5};\nint main(){ auto r = w + w; return 0; }\n'
     with cf.ThreadPoolExecutor(16) as ex:
-        res = dict(zip(jobs.keys(), ex.map(_try_compile, [(comp, text) for text in jobs.values()])))
+        res = dict(zip(jobs.keys(), ex.map(_try_compile, [(comp, std, text) for text in jobs.values()])))
         if not res[('sanity',)]:
             raise RuntimeError('C10: the try-compile probe cannot compile `wide_integer<200>{5} + wide_integer<200>{5}` with %s against %s' % (comp, REPO))
         single = {}
@@ -89,7 +150,8 @@ def probe(digits, comp):
                     res[('t', d, s, l)] = True
                 else:
                     single[('t', d, s, l)] = head + 'int main(){ %s return 0; }\n' % _type_stmt(d, s, l)
-        res.update(dict(zip(single.keys(), ex.map(_try_compile, [(comp, text) for text in single.values()]))))
+        res.update(dict(zip(single.keys(), ex.map(_try_compile, [(comp, std, text) for text in single.values()]))))
+    _cache_save()
     return res
 
 
@@ -139,28 +201,43 @@ def plan(tier):
                     continue  # wide_integer<128, unsigned> is stored in unsigned __int128 under gnu++20
                 sh = (8 if d >= 1024 else 4 if d >= 256 else 3) if t else 2
                 unit(10000 + 2 * d + s, 'wide-bin-%d%s' % (d, 'su'[1 - s]), wide_opt, sh)
-                unit(20000 + 2 * d + s, 'wide-un-%d%s' % (d, 'su'[1 - s]), wide_opt, 2 if t else 1)
+                unit(20000 + 2 * d + s, 'wide-un-%d%s' % (d, 'su'[1 - s]), '-O0', 2 if t else 1)  # cheap to run, expensive to optimise
         if not quick_clang:
             for d in single_word:
                 unit(10000 + 2 * d + 1, 'word-bin-%ds' % d, wide_opt, 1)
-                unit(20000 + 2 * d + 1, 'word-un-%ds' % d, wide_opt, 1)
+                unit(20000 + 2 * d + 1, 'word-un-%ds' % d, '-O0', 1)
         unit(30000, 'wide-mixed', wide_opt, 2)
-        # (A) the rest: lattice binary (parts 3..6, by limb type) optimised, unary (2, 7..10) not
-        for part, nm in ((3, 'u8'), (4, 'u16'), (5, 'u32'), (6, 'u64')):
-            if quick_clang and part in (4, 6):
-                continue
-            unit(part, 'vend-lattice-bin-' + nm, '-O1', (12 if part != 6 else 2) if t else 3)
+        # (A) the rest: lattice binary (100+i) optimised, unary (2, 200+i) not; one (width, limb) per TU
+        lat = ['24-u8', '32-u8', '32-u16', '48-u16', '64-u16', '64-u32', '96-u32', '128-u32', '128-u64']
+        if t:
+            sel = range(9)
+        elif comp == 'g++':
+            sel = (1, 3, 7, 8)
+        else:
+            sel = (1, 7)
+        for i in sel:
+            four_limbs = i in (1, 4, 7)
+            unit(100 + i, 'vend-lattice-bin-' + lat[i], '-O1', (12 if four_limbs else 2) if t else 2)
         unit(2, 'vend16-unary', '-O0', 4)
-        for part, nm in ((7, 'u8'), (8, 'u16'), (9, 'u32'), (10, 'u64')):
-            if quick_clang and part in (8, 10):
-                continue
-            unit(part, 'vend-lattice-un-' + nm, '-O0', 3 if t else 2)
+        for i in sel:
+            unit(200 + i, 'vend-lattice-un-' + lat[i], '-O0', 2)
+    if t:
+        # second dialect cell: -std=c++20 has no __int128, so Digits 64..128 are multi-limb (8/16/32-bit limbs only)
+        strict = [(65, 1), (100, 1), (100, 0), (127, 1)]
+        res = probe([d for d, _ in strict], 'g++', 'c++20', features=False)
+        res.update({k: v for k, v in results['g++'].items() if k[0] == 'f'})  # operator facts: as established under gnu++20
+        results['g++/c++20'] = res
+        inc = probe_inc(res)
+        for d, s in strict:
+            for base, nm in ((10000, 'bin'), (20000, 'un')):
+                units.append(dict(name='g++-strict-%s-%d%s' % (nm, d, 'us'[s]), src='C10.cpp', compiler='g++', mode='ndebug', opt='-O1' if nm == 'bin' else '-O0', std='c++20',
+                                  defines=['VF_TIER=1', 'VF_PART=%d' % (base + 2 * d + s)], shards=2, gen={'c10_probe.inc': inc}))
     res = results['g++']
     return dict(
         units=units,
         rule='(A) vendored uintwide_t<16,uint8_t,void,{true,false}>: %s operand pairs x {+,-,*,/,%%,&,|,^,<,<=,>,>=,==,!=}; all 2^16 values x all 16 shift counts (int and unsigned count), '
              'unary -,~,++,-- (pre/post), conversion to 14 and from 12 built-in integer types and to float/double/long double, decimal operator<<, numeric_limits; '
-             'uintwide_t<24|32,uint8_t>, <32|48|64,uint16_t>, <64|96|128,uint32_t>, <128,uint64_t>: every limb drawn from {00,01,02,7f,80,81,fe,ff}%s scaled to the limb width, complete product; '
+             'uintwide_t<24|32,uint8_t>, <32|48|64,uint16_t>, <64|96|128,uint32_t>, <128,uint64_t> (quick: <32,uint8_t>, <48,uint16_t>, <128,uint32_t>, <128,uint64_t>): every limb drawn from {00,01,02,7f,80,81,fe,ff}%s scaled to the limb width, complete product; '
              '(B) cnl::wide_integer<D,Narrowest>, D in %s, Narrowest in {int,uint}{8,16,32,64}_t all run on the same mathematical operands: values with a 00../ff.. background and <= %d foreground limbs '
              '(patterns as above) at limb positions {0,1,mid,top-1,top} ({0,mid,top} for D>600) for each of the four limb granularities, %s, plus the extremes of each type\'s storage; '
              'unary program additionally on integers constructed to sit at and around rounding ties of float/double/long double; mixed program: wide_integer<200,{int,unsigned}> op {int,unsigned,long,unsigned long}, '
@@ -168,17 +245,17 @@ def plan(tier):
              'non-trivial = both operands non-zero and not representable in one limb (binary), operand not representable in one limb (unary)'
              % ('ALL 2^32' if t else 'the 2^12 x 2^12 sub-grid with both bytes in {00..0f,70..8f,f0..ff} of', ' (thorough: plus {55,aa,0f..,10..} on the left operand, on both for <= 3 limbs)' if t else '',
                 digits, 2 if t else 1, 'A-set x (<=1 foreground)-set in both operand orders' if t else 'complete product'),
-        bound=dict(small_scope='uintwide_t<16,uint8_t> complete' if t else 'uintwide_t<16,uint8_t> 2^12 x 2^12 sub-grid', lattice_widths=[24, 32, 48, 64, 96, 128],
+        bound=dict(small_scope='uintwide_t<16,uint8_t> complete' if t else 'uintwide_t<16,uint8_t> 2^12 x 2^12 sub-grid', lattice_instantiations=['24/u8', '32/u8', '32/u16', '48/u16', '64/u16', '64/u32', '96/u32', '128/u32', '128/u64'] if t else ['32/u8', '48/u16', '128/u32', '128/u64'],
                    public_digits=digits, single_word_digits=single_word, limb_bits=[8, 16, 32, 64], foreground_limbs=2 if t else 1,
-                   not_instantiable=[list(k[1:]) for k, ok in res.items() if k[0] == 't' and not ok],
+                   not_instantiable={c: [list(k[1:]) for k, ok in r.items() if k[0] == 't' and not ok and not (c.endswith('c++20') and k[3] == 64)] for c, r in results.items()},
                    ill_formed={c: [n for n in FEATURES if not r[('f', n)]] for c, r in results.items()}),
         assumptions=['N is the width of the storage the type really has (multiple of the limb width, >= Digits+sign), which is where the library wraps; numeric_limits max/lowest are judged against 2^Digits-1 / -2^Digits',
                      'numeric_limits::min() == 1 for signed wide_integer is recorded as an outcome class, not judged (same convention as elastic_integer, asserted by the library\'s own unit tests)',
                      'conversion to floating point is judged against round-to-nearest-even; a result that is the other adjacent value gets its own violation class (adjacent_*_instead_of_nearest)',
-                     'floating point -> vendored class is only judged for Width2 >= 64 (the constructor stores the significand in an object of the same width first); every multi-limb rep CNL builds is >= 136 bits',
+                     'floating point -> vendored class is only judged for Width2 > 64 (the constructor stores the up-to-64-bit significand in an object of the same width and shifts it arithmetically); every multi-limb rep CNL builds is >= 136 bits',
                      'Digits <= 127 (signed) / 128 (unsigned) are stored in a built-in integer under gnu++20: cases whose exact result overflows that built-in are outside the property (UB of the built-in) and skipped',
                      'expressions that do not compile are established by try-compiling one-line snippets in plan() and reported as violations ill_formed/..., instantiate/...'],
-        deadline_s=1500 if t else 240,
+        deadline_s=1500 if t else 420,
     )
 
 
